@@ -9,6 +9,7 @@ pub mod features;
 pub mod history;
 pub mod nogood;
 pub mod parser;
+pub mod races;
 pub mod sem;
 pub mod stream;
 pub mod users;
